@@ -6,6 +6,7 @@ import NeverModel.Lemmas.VmIpSound
 import NeverModel.Lemmas.VerCert
 import NeverModel.Lemmas.VerLocal
 import NeverModel.Lemmas.VerCalls
+import NeverModel.Lemmas.VerFoot
 /-!
 # C07 — emitted code is well-formed on every path, executed or not
 
@@ -451,6 +452,25 @@ example : (match run callModule (fun _ => {}) 3 { Vm.new 64 32 with running := 1
     | .ok v => v.ip == 3 && v.sp == v.pp + 0 + 7 && v.fp == 4 && v.running == 1
     | .error _ => false) = true := by decide +kernel
 
+/-- the hypotheses of `verified_run_in_activation` are satisfiable on real runs: from the start machine of `callModule` the four
+steps MARK; INT; GLOBAL_VEC; ID_FUNC_ADDR form a run `Inside` the activation (checked by the decidable `insideB`), and so do the four
+steps of the callee's body from its entry (state after 5 steps) up to its RET -/
+example : ∀ sm hm, verifyH callModule = .ok (sm, hm) →
+    (∃ k v, RunsTo callModule (Inside callModule hm) k (beginExecute callModule (Vm.new 64 32)) v ∧ v.ip = 4) := by
+  intro sm hm hv
+  have key : (match verifyH callModule with
+      | .ok (_, hm) => (match runInB callModule hm (fun _ => {}) 4 (beginExecute callModule (Vm.new 64 32)) with
+                        | some v => v.ip == 4 | none => false)
+      | .error _ => false) = true := by decide +kernel
+  rw [hv] at key
+  simp only at key
+  cases hr : runInB callModule hm (fun _ => {}) 4 (beginExecute callModule (Vm.new 64 32)) with
+  | none => rw [hr] at key; cases key
+  | some v =>
+    rw [hr] at key
+    obtain ⟨k, hk⟩ := runInB_runsTo callModule hm _ 4 _ _ hr
+    exact ⟨k, v, hk, by simpa using key⟩
+
 /-! ## Calls and returns: the global invariant over whole executions
 
 The frame records MARK pushes are followed as a ghost list beside the machine (`Rec`: position `F` of the return-address word =
@@ -567,6 +587,49 @@ theorem frame_words_kept (md : Module) (orc : Oracle) (vm vm' : Vm) (recs : List
    fun h hr hs hb => framesKept_MARK orc vm vm' recs i hi h hr hs hb hstep,
    fun h hs hb => framesKept_RET orc vm vm' recs i hi h hs hb hstep⟩
 
+/-- **Write footprint of the verifier's effect table** (all 198 opcodes, any machine state): the handler of an instruction to
+which `simpleEffect` assigns `(pops, pushes)`, started with stack pointer `sp` and run to completion or to a raised exception, leaves
+every stack slot below `sp − pops + 1` — everything under its lowest operand — exactly as it was.  (A fourth effect logic,
+`NoWr`/`Foot`/`FootAt` in Lemmas/VmNoWr.lean, VmFoot*.lean, reusing the `sp` bookkeeping of `EffAt`.) -/
+theorem effect_table_write_footprint (md : Module) (ins : Instr) (orc : Oracle) (p q : Nat) (h : simpleEffect ins = some (p, q))
+    (vm vm' : Vm) (hr : (exec md ins orc).run vm = .ok ((), vm')) (j : Int) (hj : j < vm.sp - (p : Int) + 1) : slot vm' j = slot vm j :=
+  exec_foot_table md ins orc p q h vm.sp vm () vm' rfl hr j hj
+
+/-- **A verified function never writes at or below its frame base `pp`** — "stores never hit the frame words below `pp + 1`".  In a
+verified module, from a machine at its recorded height (`sp = pp + nparams + h(ip)`), a step on any instruction of the effect table
+(its operands exist above the parameters, and it writes nothing under its lowest operand), on MARK (writes above the top), SLIDE
+(what it moves stays above `pp`; in the last-call case exactly the parameter block `pp + 1 …`), CALL, CLEAR_STACK or JUMP leaves every
+stack slot `j ≤ pp` as it was: the frame record the running function was entered through and all frames of its callers.  Hence every
+live record with `F ≤ pp` keeps its three words (`framesKept_below_pp`): of the side condition "frame words are not overwritten" only
+the records of calls *in preparation* in the running function (above `pp`), `MK_INIT_ARRAY`, `PUSH_PARAM` and the slot RET writes
+remain assumed. -/
+theorem verified_step_keeps_callers_frames (md : Module) (orc : Oracle) (sm : Summary) (hm : HMap) (hv : verifyH md = .ok (sm, hm))
+    (vm vm' : Vm) (i : Instr) (hi : md.code[vm.ip]? = some i) (hh : AtHeight md hm vm)
+    (hop : (simpleEffect i).isSome = true ∨ i.op = .MARK ∨ i.op = .SLIDE ∨ i.op = .CALL ∨ i.op = .CLEAR_STACK ∨ i.op = .JUMP)
+    (hstep : (step md orc).run vm = .ok ((), vm')) :
+    (∀ j, j ≤ vm.pp → slot vm' j = slot vm j) ∧
+    (∀ r : Rec, r.F ≤ vm.pp → slot vm' (r.F - 4) = slot vm (r.F - 4) ∧ slot vm' (r.F - 1) = slot vm (r.F - 1) ∧ slot vm' r.F = slot vm r.F) :=
+  ⟨step_keeps_below_pp (verifyH_ok md sm hm hv).2 orc vm vm' i hi hh hop hstep,
+   fun r hr => framesKept_below_pp (verifyH_ok md sm hm hv).2 orc vm vm' i hi hh hop hstep r hr⟩
+
+/-- **`verify_sound` with the frame-word condition reduced to what is not proved.**  As `verify_sound_partial`, but of "frame words are
+not overwritten" the steps are only asked (`StepOkP`, runs `RunsP`) to keep the words of live records ABOVE `pp` — the records of calls
+being prepared in the running function, which the verifier does not track (`slideModule`) — and, for the four opcodes MK_INIT_ARRAY,
+PUSH_PARAM, RET, RETHROW, of all live records that stay live; that no instruction of the effect table, no MARK, SLIDE, CALL, CLEAR_STACK,
+JUMP touches a frame record at or below `pp` is `verified_step_keeps_callers_frames`.  The other side conditions are unchanged: the
+arity of function values at CALL (type soundness), a live record at RET, the recorded constants of MK_INIT_ARRAY. -/
+theorem verify_sound_pending_partial (md : Module) (sm : Summary) (hm : HMap) (hv : verifyH md = .ok (sm, hm)) (bot : Int)
+    (n : Nat) (vm vm' : Vm) (recs recs' : List Rec) (hs : Sound md hm bot vm recs) (hr : RunsP md hm n vm recs vm' recs') :
+    Sound md hm bot vm' recs' ∨ vm'.running = 3 ∨ vm'.running = 0 :=
+  verify_sound_partial md sm hm hv bot n vm vm' recs recs' hs (runsP_runsG (verifyH_ok md sm hm hv).2 n vm vm' recs recs' hs hr)
+
+/-- on the run of `callModule`: between the entry of `f` (5 steps: `pp = 4`, the record in slots 0 … 4) and its RET (9 steps) the
+slots 0 … 4 are untouched, while slot 5 and above are worked on -/
+example : (match run callModule (fun _ => {}) 5 (beginExecute callModule (Vm.new 64 32)),
+                 run callModule (fun _ => {}) 9 (beginExecute callModule (Vm.new 64 32)) with
+    | .ok a, .ok b => a.pp == 4 && b.pp == 4 && b.ip == 12 && (List.range 5).all (fun j => slot b j == slot a j) && slot b 6 != slot a 6
+    | _, _ => false) = true := by decide +kernel
+
 /-- the global invariant holds of the start machine of `callModule`, and a whole run of it — MARK, the argument, the function value,
 CALL into `f`, `x + 1`, RET back behind the CALL, HALT — passes the addresses 0 … 5, 8 … 12 and ends halted with exactly the result
 on the stack (`sp = 0`), `fp = pp = −1` restored -/
@@ -605,6 +668,10 @@ example : ∀ sm hm, verifyH callModule = .ok (sm, hm) →
     simp only [Bool.and_eq_true, beq_iff_eq, List.isEmpty_iff] at key
     obtain ⟨k, hk⟩ := runGB_runsG callModule hm _ 11 _ _ _ _ hr
     exact ⟨k, v, rs, hk, key.1, key.2⟩
+
+/-- (a run meeting `StepOk` meets the weaker `StepOkP` of `verify_sound_pending_partial`: the same run is an instance of it) -/
+example (md : Module) (hm : HMap) (n : Nat) (vm vm' : Vm) (recs recs' : List Rec) (h : RunsG md hm n vm recs vm' recs') :
+    RunsP md hm n vm recs vm' recs' := runsG_runsP n vm vm' recs recs' h
 
 /-- **the arity side condition is needed** (the verifier cannot know it: function values are dynamic).  `arityModule` is `callModule`
 with a second argument pushed for the one-parameter function `f`.  It verifies — every height re-checks —, but its run enters `f` with
